@@ -2,8 +2,8 @@
    PRINT / ASSERT traps folded in (vm_call_function prints and re-enters the core at the same state).
    Modelled opcode set = every opcode of the table EXCEPT: PUSH_F64, STR_FROM_FLOAT on a float, CAST_FLOAT,
    the eight HM_* opcodes, arithmetic on arrays (element-wise / broadcast forms of ADD SUB MUL DIV),
-   CALL_EXTERN with a valid import index, and printing a closure value ("fn(<pointer bits>)").
-   Those end the model run with SUnmod.  C behaviours mirrored: stack_pop on empty = void, u32
+   CALL_EXTERN with a valid import index.  Those end the model run with SUnmod.  Printing a closure value ("fn(<pointer bits>)")
+   is modelled with a placeholder for the digits.  C behaviours mirrored: stack_pop on empty = void, u32
    arithmetic of stack_base / abs_idx / jump targets, (uint32_t) index casts, INT64_MIN / -1 = SIGFPE,
    the int16 loop counter of CLOSURE_NEW, implicit return when ip reaches code_end.
    Definitions only (extracted). *)
